@@ -73,6 +73,27 @@ func expandFacts(fs []Fact) []Fact {
 				f = Fact{u.X, !f.Holds}
 				continue
 			}
+			// `x == true`, `true != x` (a `switch true { case x: }` is the former)
+			if bo, isBo := f.Cond.(*ssa.BinOp); isBo && (bo.Op == token.EQL || bo.Op == token.NEQ) && isBoolT(bo.X.Type()) {
+				var k *ssa.Const
+				var other ssa.Value
+				if c, isC := bo.X.(*ssa.Const); isC && c.Value != nil {
+					k, other = c, bo.Y
+				} else if c, isC := bo.Y.(*ssa.Const); isC && c.Value != nil {
+					k, other = c, bo.X
+				}
+				if k != nil && k.Value.Kind() == constant.Bool {
+					holds := f.Holds
+					if bo.Op == token.NEQ {
+						holds = !holds
+					}
+					if !constant.BoolVal(k.Value) {
+						holds = !holds
+					}
+					f = Fact{other, holds}
+					continue
+				}
+			}
 			break
 		}
 		if seen[f] {
